@@ -24,9 +24,9 @@ from vlib import cfg
 
 MANIFEST = dict(
     technique='TLA+ specifications of the HTTP exchange (grammar + parser model + route dispatch) and of RFC 6455 framing over two FIFO channels, checked exhaustively by TLC on small closed models; P-specs TraceHttp/TraceWs validate traces of the bundled client and server (and of an independent raw RFC 6455 client) running over the real stack',
-    text='TLC checks on a small alphabet that the stated wire grammar round-trips through a model of the bundled parser for every header order, and that the frame decoder inverts both the repo-shaped and an independent masked encoder with minimal length forms on all interleavings of two directions (length classes 0,1,125,126,127,65535,65536). The real code is then driven with requests generated from TLC simulations of the exchange model and from the seed (GET/HEAD/POST/PUT, 3 registered + unregistered/near-miss paths, 0-4 extra headers incl. overriding defaults and names/values containing the separator characters, bodies 0..1100 bytes incl. binary and CRLF/": " sequences, handler statuses 200/201/404/500) and with WebSocket message sequences in both directions (lengths 0,1,124..127,65534..65537,200000,300000 and random, masked with all-zero/all-ones/random keys by the harness\'s own client, frames dribbled in pieces); all scenarios of a run are served by ONE server process, including the same request shapes repeated (body/headers then bare, unregistered then registered path), raw upgrades repeating the same Sec-WebSocket-Key, and combos of simultaneously open connections (later upgrades and plain requests while earlier WebSocket connections are open, their messages flowing afterwards); TLC decides for every exchange that the handler of exactly the requested path saw the same method/path/header map/body, that no handler runs for an unregistered path, that the client got the handler\'s status and body, that the accept key equals RFC 6455\'s function (Go standard library) of the client key, that per direction the received messages are a prefix of the sent ones and at the end all of them, byte-identical, and that raw frame headers announce the actual length in the minimal form.',
+    text='TLC checks on a small alphabet that the stated wire grammar round-trips through a model of the bundled parser for every header order, and that the frame decoder inverts both the repo-shaped and an independent masked encoder with minimal length forms on all interleavings of two directions (length classes 0,1,125,126,127,65535,65536). The real code is then driven with requests generated from TLC simulations of the exchange model and from the seed (GET/HEAD/POST/PUT, 3 registered + unregistered/near-miss paths, 0-4 extra headers incl. overriding defaults and names/values containing the separator characters, bodies 0..1100 bytes incl. binary and CRLF/": " sequences, handler statuses 200/201/404/500) and with WebSocket message sequences in both directions (lengths 0,1,124..127,65534..65537,200000,300000 and random, sent by the harness\'s own client to the bundled server and by the harness\'s own server to the bundled client with masked (all-zero/all-ones/random/partly-zero keys) and unmasked frames alternating on one connection, long then tiny messages, frames dribbled in pieces); all scenarios of a run are served by ONE server process, including the same request shapes repeated (body/headers then bare, unregistered then registered path), raw upgrades repeating the same Sec-WebSocket-Key, and combos of simultaneously open connections (later upgrades and plain requests while earlier WebSocket connections are open, their messages flowing afterwards); TLC decides for every exchange that the handler of exactly the requested path saw the same method/path/header map/body, that no handler runs for an unregistered path, that the client got the handler\'s status and body, that the accept key equals RFC 6455\'s function (Go standard library) of the client key, that per direction the received messages are a prefix of the sent ones and at the end all of them, byte-identical, and that raw frame headers announce the actual length in the minimal form.',
     design='5 C20',
-    note='Limits: an HTTP message is taken with one receive and Write ignores short writes, so HTTP messages stay within one segment (< 4 KiB here) and the bytes written per direction of a WebSocket connection stay below the 1 MiB send buffer; empty header values, unknown status codes and an empty handler body (End("") means "use the default page") are outside the grammar. The bundled server registers its read waiter after Accept (a request arriving before that is never noticed, a schedule race outside C20): the driver writes only after the server goroutine of the connection is parked in ServerSocket.Read (seen in the goroutine dump, state-based) plus settle_ms, and every rejected scenario is re-run before it is reported: alone in a fresh process, then after one earlier scenario of its class, then after the whole recorded history of the server process (state leaking between exchanges reproduces only with its history; the replay file carries that history). websocket/client.go needs cgo (`import "C"`): appd is built with CGO_ENABLED=1, falling back to a replica of its few lines without cgo. Request token/header map without accessor are read by reflection. Known finding F11 (Response.Error is a no-op) is tolerated only via the KF constant when registered as known.')
+    note='Limits: an HTTP message is taken with one receive and Write ignores short writes, so HTTP messages stay within one segment (< 4 KiB here) and the bytes written per direction of a WebSocket connection stay below the 1 MiB send buffer; fragmented frames and ping/pong/close opcodes (the bundled Conn rejects everything but unfragmented text frames), empty header values, unknown status codes and an empty handler body (End("") means "use the default page") are outside the grammar. The bundled server registers its read waiter after Accept (a request arriving before that is never noticed, a schedule race outside C20): the driver writes only after the server goroutine of the connection is parked in ServerSocket.Read (seen in the goroutine dump, state-based) plus settle_ms, and every rejected scenario is re-run before it is reported: alone in a fresh process, then after one earlier scenario of its class, then after the whole recorded history of the server process (state leaking between exchanges reproduces only with its history; the replay file carries that history). websocket/client.go needs cgo (`import "C"`): appd is built with CGO_ENABLED=1, falling back to a replica of its few lines without cgo. Request token/header map without accessor are read by reflection. Known finding F11 (Response.Error is a no-op) is tolerated only via the KF constant when registered as known.')
 
 SPEC = ['app']
 ROUTES = ['/a', '/b', '/b/c.d_e-1?q=1&r=%20']
@@ -176,11 +176,25 @@ def jitter(rng, n):
     return rng.choice(JITTER.get(n, [n]))
 
 
-def key_of(rng, i):
-    return [[0, 0, 0, 0], [255, 255, 255, 255], [rng.randrange(256) for _ in range(4)]][i % 3]
+def key_of(rng, i=None):
+    """masking key of one frame written by the harness's own encoder; [] = the frame goes out UNMASKED (masked and
+    unmasked frames alternate on one connection: a receiver must not carry the key over)"""
+    r = rng.random()
+    if r < 0.35:
+        return []
+    if r < 0.5:
+        return [0, 0, 0, 0]
+    if r < 0.6:
+        return [255, 255, 255, 255]
+    if r < 0.8:
+        k = [rng.randrange(1, 256) for _ in range(4)]
+        for j in rng.sample(range(4), rng.choice([1, 2, 3])):
+            k[j] = 0
+        return k
+    return [rng.randrange(256) for _ in range(4)]
 
 
-def ws_scenario(rng, sid, raw, c_lens, s_lens, order=None, chunks=None, route=None, ckey=None):
+def ws_scenario(rng, sid, raw, c_lens, s_lens, order=None, chunks=None, route=None, ckey=None, ckeys=None, skeys=None):
     def trim(ls):
         out, tot = [], 0
         for n in ls:
@@ -191,10 +205,14 @@ def ws_scenario(rng, sid, raw, c_lens, s_lens, order=None, chunks=None, route=No
         return out
     c_lens, s_lens = trim(c_lens), trim(s_lens)
     if ckey is None:
-        ckey = SAMPLE_KEY if raw and rng.random() < 0.4 else ''
-    sc = dict(kind='wsraw' if raw else 'ws', id=sid, path=route or WS_ROUTE, ckey=ckey if raw else '',
-              c2s=[dict(n=n, seed=rng.randrange(1 << 30), key=key_of(rng, rng.randrange(3)) if raw else []) for n in c_lens],
-              s2c=[dict(n=n, seed=rng.randrange(1 << 30), key=[]) for n in s_lens], order=[], chunks=[])
+        ckey = SAMPLE_KEY if raw is True and rng.random() < 0.4 else ''
+    kind = 'wsrawsrv' if raw == 'srv' else 'wsraw' if raw else 'ws'
+    ck = ckeys if ckeys is not None else [key_of(rng) for _ in c_lens]
+    sk = skeys if skeys is not None else [key_of(rng) for _ in s_lens]
+    sc = dict(kind=kind, id=sid, path=(route or WS_ROUTE) if kind != 'wsrawsrv' else WS_ROUTE, ckey=ckey if kind == 'wsraw' else '',
+              c2s=[dict(n=n, seed=rng.randrange(1 << 30), key=ck[i] if kind == 'wsraw' else []) for i, n in enumerate(c_lens)],
+              s2c=[dict(n=n, seed=rng.randrange(1 << 30), key=sk[i] if kind == 'wsrawsrv' else []) for i, n in enumerate(s_lens)],
+              order=[], chunks=[])
     if order is None and rng.random() < 0.6:
         tags = ['c%d' % i for i in range(len(c_lens))] + ['s%d' % i for i in range(len(s_lens))]
         # a random merge of the two sequences
@@ -213,7 +231,7 @@ def ws_scenario(rng, sid, raw, c_lens, s_lens, order=None, chunks=None, route=No
         if chunks is None:
             chunks = rng.choice([[], [], [1], [1, 1, 3, 1000], [2, 5, 4, 60000], [7], [1, 13, 1, 1, 1, 1, 1, 1, 1, 1, 1, 1, 1, 1, 30000]])
         # keep dribbling affordable: at most ~400 writes per frame
-        big = max(c_lens or [0])
+        big = max((s_lens if raw == 'srv' else c_lens) or [0])
         if chunks and big // max(1, sum(chunks) // len(chunks)) > 400:
             chunks = chunks + [big]
         sc['chunks'] = chunks
@@ -235,7 +253,7 @@ def combo_scenario(rng, nid):
     wsr = list(WS_ROUTES)
     rng.shuffle(wsr)
     kinds = ['ws', 'wsraw', 'http', 'http']
-    kinds += [rng.choice(['ws', 'wsraw', 'http', 'http'])] if rng.random() < 0.6 else []
+    kinds += [rng.choice(['ws', 'wsraw', 'wsrawsrv', 'http'])] if rng.random() < 0.6 else []
     rng.shuffle(kinds)
     if kinds[0] == 'http':      # a websocket connection first, so that everything else happens while it is open
         i = next(i for i, k in enumerate(kinds) if k != 'http')
@@ -251,9 +269,9 @@ def combo_scenario(rng, nid):
                                        rng.choice(['b0', 'b1', 'bmid', 'b1k']), 200 if rng.random() < 0.8 else rng.choice(STATUSES[1:]),
                                        rng.choice(['r1', 'rmid', 'r1k'])))
         else:
-            raw = k == 'wsraw'
+            raw = {'ws': False, 'wsraw': True, 'wsrawsrv': 'srv'}[k]
             parts.append(ws_scenario(rng, nid(), raw, [ln() for _ in range(rng.randrange(1, 4))], [ln() for _ in range(rng.randrange(1, 4))],
-                                     route=wsr.pop(), ckey=SAMPLE_KEY if raw and rng.random() < 0.7 else ''))
+                                     route=wsr.pop() if k != 'wsrawsrv' else None, ckey=SAMPLE_KEY if raw is True and rng.random() < 0.7 else ''))
     return dict(kind='combo', id=nid(), parts=parts)
 
 
@@ -289,8 +307,22 @@ def gen_scenarios(ctx, sims_http, sims_ws):
     scs.append(ws_scenario(rng, nid(), True, [1], [1], ckey=SAMPLE_KEY))
     scs.append(ws_scenario(rng, nid(), True, [2], [], ckey=SAMPLE_KEY))
     scs.append(ws_scenario(rng, nid(), True, [], [3], ckey=''))
-    # WebSocket: every boundary length once per direction through the bundled client and once through the raw client
-    for raw in (False, True):
+    # masked and unmasked frames alternating on ONE connection, every length class, keys with zero bytes, a long message
+    # followed by a tiny one: received by the bundled server (raw client) and by the bundled client (raw server)
+    U, Z = [], [0, 0, 0, 0]
+    for raw in (True, 'srv'):
+        la = [5, 70000, 3, 126, 0, 125, 1]
+        ka = [U, [rng.randrange(1, 256) for _ in range(4)], U, Z, U, [0, rng.randrange(1, 256), 0, rng.randrange(1, 256)], U]
+        lb = [65536, 2, 65535, 127, 300, 4, 65537]
+        kb = [[rng.randrange(1, 256), 0, 0, 0], U, [255, 255, 255, 255], U, U, [rng.randrange(256) for _ in range(4)], U]
+        for (ls, ks) in ((la, ka), (lb, kb)):
+            other = [rng.choice([0, 1, 125, 126, 300]) for _ in range(3)]
+            if raw is True:
+                scs.append(ws_scenario(rng, nid(), raw, ls, other, ckeys=ks, chunks=[]))
+            else:
+                scs.append(ws_scenario(rng, nid(), raw, other, ls, skeys=ks, chunks=[]))
+    # WebSocket: every boundary length once per direction through the bundled client, the raw client and the raw server
+    for raw in (False, True, 'srv'):
         ls = list(WS_LENS)
         rng.shuffle(ls)
         ls2 = list(WS_LENS)
@@ -300,7 +332,7 @@ def gen_scenarios(ctx, sims_http, sims_ws):
     for _ in range(ctx.pick(3, 60)):
         scs.append(combo_scenario(rng, nid))
     for order in sims_ws:
-        raw = rng.random() < 0.5
+        raw = rng.choice([False, True, True, 'srv'])
         c = [jitter(rng, n) for s, n in order if s == 'c']
         s = [jitter(rng, n) for s, n in order if s == 's']
         tags, ci, si = [], 0, 0
@@ -315,7 +347,7 @@ def gen_scenarios(ctx, sims_http, sims_ws):
         if len(sc['c2s']) == len(c) and len(sc['s2c']) == len(s):
             scs.append(sc)
     for _ in range(ctx.pick(2, 220)):
-        raw = rng.random() < 0.5
+        raw = rng.choice([False, True, True, 'srv'])
         k = rng.choice([1, 2, 3, 3, 5, 8])
 
         def ln():
@@ -508,7 +540,7 @@ def run(ctx):
             sc, ti = byid[sid]
             top = scs[ti]
             ev = seg[ln] if ln is not None and ln < len(seg) else {}
-            if kind == 'ws' and ev.get('ev') == 'frame' and ev.get('dir') == 'c2s':
+            if kind == 'ws' and ev.get('ev') == 'frame' and 'key' in ev:
                 raise vlib.Inconclusive('the harness\'s own encoder disagrees with Ws!IndepHeader: %s' % ev)
             if reported >= 2:
                 ctx.extra.setdefault('rejections_not_rerun', []).append(dict(scenario=sid, event=short(ev)))
